@@ -504,6 +504,9 @@ class PolygonTensor(PolytopeTensor):
             try:
                 result = self._plane.meet(other._line)
             except LinearDependenceError as e:
+                if np.all(e.dependent_values):
+                    # the segment(s) lie in the supporting plane(s): no isolated points of intersection
+                    return []
                 if isinstance(other, SegmentTensor):
                     other = cast(SegmentTensor, other[~e.dependent_values])
                 result = cast(PlaneTensor, self._plane[~e.dependent_values]).meet(other._line)
@@ -519,6 +522,9 @@ class PolygonTensor(PolytopeTensor):
         try:
             result = self._plane.meet(other)
         except LinearDependenceError as e:
+            if np.all(e.dependent_values):
+                # the line(s) lie in the supporting plane(s): no isolated points of intersection
+                return []
             if other.free_indices > 0:
                 other = other[~e.dependent_values]
             result = cast(PlaneTensor, self._plane[~e.dependent_values]).meet(other)
